@@ -142,6 +142,25 @@ ADD2 = {
     'C19': ' Missing code 0.',
     'C20': ' Non-zero forecast hours; the level text rule of the index record (LevelChars) bound to getvgtxts / writevardef / readvardef.',
 }
+ADD3 = {
+    'C02': ' numpy-integer selectors.',
+    'C03': ' Callables that return a scalar (np.max, np.sum: Fun1d npmax / npsum), alone and on two dimensions of one variable.',
+    'C04': ' In-memory and disk-backed pieces in one stack call (mixed_backing_stacks).',
+    'C05': ' interpDimension with the coordinate VARIABLE of another file as its argument, then writes into the result.',
+    'C06': ' Operators between files that hold the same variables in different storage types (T12 / T13). eval with operands on trailing dimensions (broadcasting) has specified values.',
+    'C07': ' A fully masked variable as the only variable along the unlimited dimension.',
+    'C09': ' Files of one size with different layer / step splits written to one path and read in one process.',
+    'C13': ' Files of one size with different layer / step splits written to one path and read in one process.',
+    'C10': ' Sources whose TFLAG lags behind a variable added through the wrapper\'s createVariable (CoherentLag).',
+    'C11': ' Windows of sources whose TFLAG lags behind an added variable.',
+    'C12': ' Two files with their own synthesised CF time variables stacked along TSTEP.',
+    'C15': ' The pool holds one file under two hard-linked names with different suffixes.',
+    'C16': ' Coordinates stored as int32 / int16 / float32, queried in half units.',
+    'C19': ' The independent variable at any position of the creation order.',
+    'C20': ' A second ARL file with other levels is opened and read between opening and reading the file under test.',
+}
+for _k, _v in ADD3.items():
+    ADD2[_k] = ADD2.get(_k, '') + _v
 for _k, _v in ADD2.items():
     ADDENDA[_k] = ADDENDA.get(_k, '') + _v
 NOTE_FIX = {
